@@ -11,7 +11,7 @@ from . import common as C
 LEVEL_TEXT = ('Static decision by an Andersen-style points-to analysis of the whole library: no mutation site may '
               'reach a process-wide singleton (an object allocated in a parameter default, a module body or a class '
               'body); no global/module/class attribute is written after import; every component a Solver holds is '
-              'allocated per Solver; the shared inputs (problem, parameters) are never written by the library; Solve '
+              'allocated per Solver and held by no process-wide object; the shared inputs (problem, parameters) are never written by the library; Solve '
               'returns the solver\'s own Solution.')
 EXPLANATION = ('Two solver instances can only interfere through an object both can reach. Objects allocated inside '
                'functions are per call; the only objects shared by construction are the singletons enumerated by the '
